@@ -740,6 +740,26 @@ func (w *World) scanBoth(what string, it iterator.Iterator, want []model.Pair) {
 			}
 		}
 	}
+	if w.Scribble && len(want) > 1 {
+		// the loop idiom: one key buffer, refilled in place before every Seek, nothing between the
+		// seeks (forwards, then backwards so that every seek has to move the iterator)
+		shared := make([]byte, 0, 64)
+		order := make([]int, 0, 2*len(want))
+		for j := range want {
+			order = append(order, j)
+		}
+		for j := len(want) - 2; j >= 0; j-- {
+			order = append(order, j)
+		}
+		for _, j := range order {
+			shared = append(shared[:0], want[j].K...)
+			ok := it.Seek(shared)
+			if !ok || string(it.Key()) != want[j].K || string(it.Value()) != want[j].V {
+				w.violate("%s: Seek(%q) with the key buffer of the previous Seek refilled in place positioned at %q=%q (ok=%v), model %q=%q", what, want[j].K, it.Key(), it.Value(), ok, want[j].K, want[j].V)
+				return
+			}
+		}
+	}
 	if err := it.Error(); err != nil {
 		w.violate("%s: iterator error %v", what, err)
 		return
